@@ -21,6 +21,7 @@ func (e *Exec) mapOf(m *Map, op string) *mapState {
 	if s == nil || s.m == nil {
 		s = &mapState{m: map[any]any{}}
 		maps[k] = s
+		e.pinned = append(e.pinned, m)
 	}
 	e.point("syncmap."+op, nil, -1)
 	me := e.cur
@@ -129,6 +130,7 @@ func (o *Once) Do(f func()) {
 	if s == nil {
 		s = &onceState{}
 		onces[k] = s
+		e.pinned = append(e.pinned, o)
 	}
 	e.point("once.Do", func() bool { return !s.running }, -1)
 	me := e.cur
@@ -171,6 +173,9 @@ func poolOf(p *Pool) *poolState {
 	if s == nil {
 		s = &poolState{}
 		pools[k] = s
+		if cur != nil {
+			cur.pinned = append(cur.pinned, p)
+		}
 	}
 	return s
 }
